@@ -75,7 +75,12 @@ def command(rng, run):
     if run and rng.random() < 0.15:
         file = b"/nonexistent-verif/x.log"
     n = rng.choice([0, 1, 2, 2, 2])
-    parts = [head] + ([file] if n >= 1 else []) + ([rng.choice(REGEX)] if n >= 2 else [])
+    rx = rng.choice(REGEX)
+    if rng.random() < 0.4:
+        # any flag list: known flags in any position and number, unknown and empty flags, with a pattern that matches some line
+        flags = b",".join(rng.choice([b"default", b"invert", b"noop", b"noop", b"bogus", b""]) for _ in range(rng.choice([1, 2, 2, 3])))
+        rx = b"regex:" + flags + b" " + rng.choice([b"a", b".", b"root", b"x y", b"[z-a]", b""])
+    parts = [head] + ([file] if n >= 1 else []) + ([rx] if n >= 2 else [])
     return b" ".join(parts)
 
 
